@@ -1,6 +1,7 @@
 (* C14/Properties.v — property theorems only; each closed by a lemma of C14/Proofs.v. *)
 From Relic Require Import Base.Prelude Generated.C14_gen C14.Model C14.Proofs.
-From Coq Require Import Permutation.
+From Relic Require C14.ModelCache C14.ProofsCache C14.ModelRate C14.ProofsRate C14.ModelShut C14.ProofsShut C14.ModelInit C14.ProofsInit.
+From Coq Require Import Permutation Sorted.
 
 (* every request that completes receives exactly what it would receive alone: signature over ITS body with ITS key
    (the key its name denotes) and ITS options — for every number of requests and every interleaving *)
@@ -47,3 +48,291 @@ Example two_requests_interleaved :
   map response (fst (run tok rqs [0; 1; 2; 2; 1; 0; 0; 2; 1; 1; 0; 2]%nat)) =
   [Some (mkSig 100 11 5); Some (mkSig 200 22 6); Some (mkSig 100 33 7)].
 Proof. vm_compute. reflexivity. Qed.
+
+
+(* =====================================================================================================================
+   (a) token/tokencache/cache.go with time: expiry, pinned key ids, the mutex — over every interleaving of GetKey calls
+   and clock advances *)
+Section CacheProps.
+Import C14.ModelCache C14.ProofsCache.
+
+(* LINEARIZABILITY. For every expiry, token, list of requests and schedule (thread steps, token failures, clock ticks):
+   running the sequential specification seq_get over the operations in the order they took effect gives the cache the
+   concurrent run ends with and, for every completed call, the result it returned; every call is in that order exactly
+   once, took effect after it was invoked and before it returned, and the order follows the (non-decreasing) clock *)
+Theorem cache_linearizable : forall E tok rqs sched,
+  let s := crun E tok rqs sched in
+  fst (seq_run E tok rqs (history s)) = cs_cache s /\
+  (forall i t r, nth_error (cs_thr s) i = Some t -> cresult t = Some r -> In (i, r) (snd (seq_run E tok rqs (history s)))) /\
+  NoDup (map l_thread (history s)) /\
+  (forall o, In o (history s) -> exists t a,
+       nth_error (cs_thr s) (l_thread o) = Some t /\ t_inv t = Some a /\ (a < l_stamp o)%nat /\
+       (forall x, t_res t = Some x -> (l_stamp o < x)%nat)) /\
+  StronglySorted hist_order (history s).
+Proof. exact C14.ProofsCache.cache_linearizable. Qed.
+
+(* ... consistent with real time: a call that returned before another was invoked precedes it in the sequential order *)
+Theorem cache_realtime : forall E tok rqs sched oa ob ta tb x y,
+  let s := crun E tok rqs sched in
+  In oa (history s) -> In ob (history s) ->
+  nth_error (cs_thr s) (l_thread oa) = Some ta -> t_res ta = Some x ->
+  nth_error (cs_thr s) (l_thread ob) = Some tb -> t_inv tb = Some y ->
+  (x < y)%nat ->
+  exists l1 l2 l3, history s = l1 ++ oa :: l2 ++ ob :: l3.
+Proof. exact C14.ProofsCache.cache_realtime. Qed.
+
+(* never a key belonging to another name (given a token that hands out keys of the name it is asked for) *)
+Theorem cache_never_foreign_key : forall E tok rqs sched i t rq k,
+  tok_owner tok ->
+  nth_error (cs_thr (crun E tok rqs sched)) i = Some t -> nth_error rqs i = Some rq ->
+  cresult t = Some (Some k) -> k_name k = c_name rq.
+Proof. exact C14.ProofsCache.cache_never_foreign_key. Qed.
+
+(* a lookup that pins a key id never returns a key with a different id — under every interleaving with un-pinned
+   lookups of the same name — and never populates the cache *)
+Theorem cache_pinned_id : forall E tok rqs sched i t rq k,
+  tok_pin tok ->
+  nth_error (cs_thr (crun E tok rqs sched)) i = Some t -> nth_error rqs i = Some rq -> c_pin rq <> 0 ->
+  cresult t = Some (Some k) -> k_id k = c_pin rq.
+Proof. exact C14.ProofsCache.cache_pinned_id. Qed.
+Theorem cache_pinned_no_store : forall E tok rq i fok t s,
+  c_pin rq <> 0 -> cs_cache (cthread E tok rq i fok t s) = cs_cache s.
+Proof. exact C14.ProofsCache.cache_pinned_no_store. Qed.
+
+(* no entry outlives the configured expiry; expiry <= 0 caches nothing *)
+Theorem cache_expiry_bounded : forall E tok rqs sched,
+  let s := crun E tok rqs sched in
+  (forall e, In e (cs_cache s) -> e_exp e <= cs_now s + E) /\ (E <= 0 -> cs_cache s = []).
+Proof. exact C14.ProofsCache.cache_expiry_bounded. Qed.
+
+(* the mutex: at most one call is between Lock and Unlock; and no deadlock: while some call is unfinished some thread
+   can take a step that advances it *)
+Theorem cache_mutex : forall E tok rqs sched i j ti tj,
+  let s := crun E tok rqs sched in
+  nth_error (cs_thr s) i = Some ti -> nth_error (cs_thr s) j = Some tj ->
+  in_section (t_pc ti) = true -> in_section (t_pc tj) = true -> i = j.
+Proof. exact C14.ProofsCache.cache_mutex. Qed.
+Theorem cache_deadlock_free : forall E tok rqs sched i t,
+  let s := crun E tok rqs sched in
+  nth_error (cs_thr s) i = Some t -> (forall r, t_pc t <> CDone r) ->
+  exists j tj tj', nth_error (cs_thr s) j = Some tj /\
+                   nth_error (cs_thr (cstep E tok rqs s (CStep j true))) j = Some tj' /\ t_pc tj' <> t_pc tj.
+Proof. exact C14.ProofsCache.cache_deadlock_free. Qed.
+
+(* non-vacuity: a token satisfying both hypotheses; a schedule with a hit, an expiry between two requests, a pinned
+   lookup while the entry is live, and a token failure *)
+Definition ex_tok : tokenT := fun n p => Some (mkKey n (if p =? 0 then 7 else p)).
+Example ex_tok_ok : tok_owner ex_tok /\ tok_pin ex_tok.
+Proof.
+  split; intros n p k H; inversion H; subst; cbn; auto. intros Hp. destruct (p =? 0) eqn:E; [apply Z.eqb_eq in E; contradiction|reflexivity].
+Qed.
+Example ex_cache_run :
+  let rqs := [mkCReq 1 0; mkCReq 1 0; mkCReq 1 9; mkCReq 1 0; mkCReq 2 0] in
+  let st := fun i => [CStep i true; CStep i true; CStep i true; CStep i true; CStep i true; CStep i true] in
+  let s := crun 10 ex_tok rqs (st 0%nat ++ st 1%nat ++ st 2%nat ++ [CTick 10] ++ st 3%nat ++
+                               [CStep 4 true; CStep 4 true; CStep 4 true; CStep 4 false; CStep 4 true]) in
+  map cresult (cs_thr s) = [Some (Some (mkKey 1 7)); Some (Some (mkKey 1 7)); Some (Some (mkKey 1 9)); Some (Some (mkKey 1 7)); Some None] /\
+  map t_fetched (cs_thr s) = [true; false; true; true; true] /\
+  map e_exp (cs_cache s) = [20; 10].
+Proof. vm_compute. auto. Qed.
+End CacheProps.
+
+(* =====================================================================================================================
+   (b) token/tokencache/ratelimit.go: the limiter as a state machine over a clock *)
+Section RateProps.
+Import C14.ModelRate C14.ProofsRate.
+
+(* THE WINDOW BOUND over any history of calls: operations admitted from the i-th to the j-th admitted one never exceed
+   burst + rate * (act_j - act_i), up to the truncation of a wait to whole time units (rate - 1 token-units, less than
+   one operation when rate < unit) and the credit for clock readings that reached the limiter out of order *)
+Theorem rl_window_bound : forall L calls pre ei mid ej post,
+  wf L -> run L calls = pre ++ ei :: mid ++ ej :: post ->
+  lm_unit L * (zlen mid + 2) <=
+    lm_unit L * lm_burst L + lm_rate L * (ev_act ej - ev_act ei)
+    + lm_rate L * down_path (ev_t ei :: map ev_t mid ++ [ev_t ej]) + (lm_rate L - 1).
+Proof. exact C14.ProofsRate.rl_window_bound. Qed.
+Theorem rl_window_bound_ordered : forall L calls pre ei mid ej post,
+  wf L -> run L calls = pre ++ ei :: mid ++ ej :: post ->
+  nondecreasing (ev_t ei :: map ev_t mid ++ [ev_t ej]) ->
+  lm_unit L * (zlen mid + 2) <= lm_unit L * lm_burst L + lm_rate L * (ev_act ej - ev_act ei) + (lm_rate L - 1).
+Proof. exact C14.ProofsRate.rl_window_bound_ordered. Qed.
+(* the plain bound is FALSE for arbitrary interleavings of "read the clock" and "reserve": concrete witness *)
+Theorem rl_strict_bound_refuted : exists L calls ei ej,
+  wf L /\ run L calls = [ei; mkEv 0 1 (-1); ej] /\
+  ~ (lm_unit L * 2 <= lm_unit L * lm_burst L + lm_rate L * (ev_act ej - ev_act ei) + (lm_rate L - 1)) /\
+  ev_act ei = ev_act ej.
+Proof. exact C14.ProofsRate.rl_strict_bound_refuted. Qed.
+
+(* no lost token, no negative wait: an admitted operation costs exactly one unit on top of the capped refill and waits
+   between 0 and debt/rate; a rejected one leaves the limiter untouched *)
+Theorem rl_accounting : forall L t mw L' res, wf L -> reserve L t mw = (L', res) ->
+  (r_ok res = true ->
+     lm_tokens L' = Z.min (lm_burst L * lm_unit L) (lm_tokens L + lm_rate L * Z.max 0 (t - lm_last L)) - lm_unit L /\
+     t <= r_act res /\ lm_rate L * (r_act res - t) <= Z.max 0 (- lm_tokens L')) /\
+  (r_ok res = false -> L' = L).
+Proof. exact C14.ProofsRate.rl_accounting. Qed.
+
+(* progress: a caller that accepts the wait is admitted, its time to act is fixed when it reserves, and it proceeds as
+   soon as the clock gets there, whatever other callers do; relic's burst floor keeps the limiter well formed *)
+Theorem rl_admits : forall L t mw, wf L -> wait_of L (advance L t - lm_unit L) <= mw -> r_ok (snd (reserve L t mw)) = true.
+Proof. exact C14.ProofsRate.rl_admits. Qed.
+Theorem rl_progress : forall mw s i a, nth_error (rs_thr s) i = Some (RSleep a) -> a <= rs_now s ->
+  nth_error (rs_thr (rstep mw s (RStep i))) i = Some (RDone (rs_now s)).
+Proof. exact C14.ProofsRate.rl_progress. Qed.
+Theorem rl_burst_floor_ok : forall rate unit burst, 1 <= rate -> 1 <= unit -> wf (relic_new_limiter rate unit burst).
+Proof. exact C14.ProofsRate.rl_burst_floor_ok. Qed.
+(* ... but NOT for tokencache.NewLimiter called directly with a rate <= 0 (the server no longer does: server_limiter_wf):
+   the second caller is told to wait InfDuration — a documented restriction of the domain, rate > 0 *)
+Theorem rl_progress_refuted_nonpositive_rate : exists L calls e1 e2,
+  lm_rate L <= 0 /\ run L calls = [e1; e2] /\ ev_act e2 - ev_t e2 = rate_inf_duration.
+Proof. exact C14.ProofsRate.rl_progress_refuted_nonpositive_rate. Qed.
+
+(* relic's wrapper: every GetKey / Sign / SignContext is one reservation on the one shared limiter *)
+Theorem relic_ops_eq_run : forall calls L, relic_ops L calls = run L (map (fun c => (snd (fst c), snd c)) calls).
+Proof. exact C14.ProofsRate.relic_ops_eq_run. Qed.
+(* every schedule of the interleaving machine is a history of [run] (so the window bound covers it) *)
+Theorem rl_conc_state : forall mw L n sched, rs_lim (rrun mw L n sched) = state_after L (rev (rs_calls (rrun mw L n sched))).
+Proof. exact C14.ProofsRate.rl_conc_state. Qed.
+(* the executable window check applied to the real limiter's output is sound for the declarative bound *)
+Theorem window_ok_sound : forall rate unit burst slack acts, window_ok rate unit burst slack acts = true ->
+  forall pre ai mid aj post, acts = pre ++ ai :: mid ++ aj :: post ->
+  unit * (zlen mid + 2) <= unit * burst + rate * (aj - ai) + slack.
+Proof. exact C14.ProofsRate.window_ok_sound. Qed.
+
+Theorem server_wiring :
+  open_tokens_calls = [2; 0; 1; 2] /\ open_tokens_limiter_args = true /\ open_tokens_cache_args = true /\
+  (forall r, rl_enabled r = (r >? 0)) /\ rl_newlimiter_args = true /\ rl_struct_plain = true.
+Proof. exact C14.ProofsRate.server_wiring. Qed.
+Theorem server_limiter_wf : forall rate unit burst, rl_enabled rate = true -> 1 <= unit -> wf (relic_new_limiter rate unit burst).
+Proof. exact C14.ProofsRate.server_limiter_wf. Qed.
+
+Example ex_rate_run :   (* 2 operations per 10 ticks, burst 2: five calls at t = 0 act at 0 0 5 10 15 *)
+  map ev_act (run (relic_new_limiter 2 10 2) [(0, 1000); (0, 1000); (0, 1000); (0, 1000); (0, 1000)]) = [0; 0; 5; 10; 15] /\
+  wf (relic_new_limiter 2 10 2) /\ window_ok 2 10 2 1 [0; 0; 5; 10; 15] = true /\ window_ok 2 10 2 1 [0; 0; 4; 10; 15] = false.
+Proof. vm_compute. repeat split; auto; discriminate. Qed.
+End RateProps.
+
+(* =====================================================================================================================
+   (c) shutdown at any moment, (d) the audit file under concurrency *)
+Section ShutProps.
+Import C14.ModelShut C14.ProofsShut.
+
+(* the tokens are closed only after the last accepted handler has finished (within the grace period) *)
+Theorem shutdown_waits_for_handlers : forall line ntok n sched i p,
+  let s := srun line ntok n sched in
+  ss_tok_closed s = true -> ss_forced s = false -> nth_error (ss_req s) i = Some p -> active p = false.
+Proof. exact C14.ProofsShut.shutdown_waits_for_handlers. Qed.
+(* no handler uses a token after Close *)
+Theorem no_token_use_after_close : forall line ntok n sched,
+  let s := srun line ntok n sched in ss_forced s = false -> clean (ss_trace s) = true.
+Proof. exact C14.ProofsShut.no_token_use_after_close. Qed.
+(* nothing is accepted once Shutdown has begun *)
+Theorem no_accept_after_shutdown : forall line ntok n sched i ok,
+  let s := srun line ntok n sched in
+  ss_begun s = true -> nth_error (ss_req s) i = Some HNew ->
+  nth_error (ss_req (sstep line ntok s (EReq i ok))) i = Some HRefused.
+Proof. exact C14.ProofsShut.no_accept_after_shutdown. Qed.
+(* daemon.Close returns last *)
+Theorem close_returns_last : forall line ntok n sched,
+  let s := srun line ntok n sched in
+  ss_returned s = true ->
+  ss_tok_closed s = true /\ ss_chan_closed s = true /\
+  (ss_forced s = false -> forall i p, nth_error (ss_req s) i = Some p -> active p = false).
+Proof. exact C14.ProofsShut.close_returns_last. Qed.
+(* a Shutdown event anywhere in the schedule neither cancels nor blocks a handler: every accepted request reaches the
+   200 response or an error response once scheduled often enough, whatever is interleaved *)
+Theorem handler_untouched : forall line ntok s e i,
+  (forall ok, e <> EReq i ok) -> nth_error (ss_req (sstep line ntok s e)) i = nth_error (ss_req s) i.
+Proof. exact C14.ProofsShut.handler_untouched. Qed.
+Theorem accepted_request_completes : forall line ntok sched s i p,
+  nth_error (ss_req s) i = Some p -> (budget p <= length (filter (own i) sched))%nat ->
+  exists q, nth_error (ss_req (fold_left (sstep line ntok) sched s)) i = Some q /\ terminal q = true.
+Proof. exact C14.ProofsShut.accepted_request_completes. Qed.
+(* and shutdown itself terminates from every reachable state once the handlers are done *)
+Theorem shutdown_completes : forall line ntok s,
+  ShInv s -> ss_called s = true -> quiet s ->
+  ss_returned (fold_left (sstep line ntok) finish_sched s) = true.
+Proof. exact C14.ProofsShut.shutdown_completes. Qed.
+Theorem reachable_states_satisfy_ShInv : forall line ntok n sched, ShInv (srun line ntok n sched).
+Proof. exact C14.ProofsShut.shinv_run. Qed.
+
+(* where the full statement fails in the faithful model *)
+Theorem shutdown_grace_period_refuted : exists sched,
+  let s := srun (fun _ => []) 1 1 sched in
+  ss_forced s = true /\ clean (ss_trace s) = false /\ ss_tok_closed s = true.
+Proof. exact C14.ProofsShut.shutdown_grace_period_refuted. Qed.
+(* the health loop: no ping of a token begins, and none is still running, after the tokens were closed — under every
+   schedule (server.Close waits for the loop; healthCheck looks at the closed channel before every ping) *)
+Theorem no_health_ping_after_close : forall line ntok n sched, no_ping_after_close (ss_trace (srun line ntok n sched)) = true.
+Proof. exact C14.ProofsShut.no_health_ping_after_close. Qed.
+(* without the wait in server.Close a check that is under way pings a closed token (the behaviour before aed4bdd) *)
+Theorem health_ping_needs_the_wait : exists sched,
+  let s := srun_gen true false true (fun _ => []) 2 0 sched in
+  ss_forced s = false /\ no_ping_after_close (ss_trace s) = false.
+Proof. exact C14.ProofsShut.health_ping_needs_the_wait. Qed.
+
+(* (d) exactly one complete line per request whose audit step succeeded; lines never mix *)
+Theorem audit_one_line_per_request : forall line ntok n sched,
+  (forall i, ~ In nl (line i)) ->
+  let s := srun line ntok n sched in
+  read_lines (ss_file s) = (map line (rev (ss_order s)), []) /\
+  NoDup (rev (ss_order s)) /\
+  (forall i p, nth_error (ss_req s) i = Some p -> (In i (rev (ss_order s)) <-> audited p = true)).
+Proof. exact C14.ProofsShut.audit_one_line_per_request. Qed.
+Theorem audit_two_writes_refuted : exists sched,
+  let s := srun_gen false true true (fun i => [Z.of_nat i + 65]) 0 2 sched in
+  read_lines (ss_file s) = ([[65; 66]; []], []).
+Proof. exact C14.ProofsShut.audit_two_writes_refuted. Qed.
+
+Theorem serve_and_append_shape : daemon_serve_calls = [0; 1; 1; 2] /\ daemon_serve_in_group = true /\ append_order = [0; 1; 2; 3].
+Proof. exact C14.ProofsShut.serve_and_append_shape. Qed.
+
+Example ex_shutdown_mid_request :   (* request 0 accepted, shutdown arrives, request 1 is refused, request 0 still completes *)
+  let s := srun (fun i => [Z.of_nat i + 65]) 1 2
+             [EReq 0 true; EReq 0 true; EShutdown; EGo; EReq 1 true; EGo; EReq 0 true; EReq 0 true; EReq 0 true; EReq 0 true; EReq 0 true;
+              EReq 0 true; EHealth true; EHealth true; EGo; EGo; EHealth true; EHealth true; EHealth false; EGo; EWait] in
+  ss_req s = [HDone; HRefused] /\ ss_file s = [65; 10] /\ ss_returned s = true /\ ss_forced s = false /\
+  ss_trace s = [TClose; TPong; TPing; TUse 0; TUse 0].
+Proof. vm_compute. repeat split; reflexivity. Qed.
+End ShutProps.
+
+(* =====================================================================================================================
+   (e) the lazily created timestamper and package-level mutable state *)
+Section InitProps.
+Import C14.ModelInit C14.ProofsInit.
+
+Theorem ts_single_instance : forall n sched, (length (ts_made (trun n sched)) <= 1)%nat.
+Proof. exact C14.ProofsInit.ts_single_instance. Qed.
+Theorem ts_same_instance : forall n sched i j a b,
+  nth_error (ts_thr (trun n sched)) i = Some (TDone (Some a)) -> nth_error (ts_thr (trun n sched)) j = Some (TDone (Some b)) -> a = b.
+Proof. exact C14.ProofsInit.ts_same_instance. Qed.
+Theorem ts_failure_not_cached : forall n sched, ts_made (trun n sched) = [] -> ts_val (trun n sched) = None.
+Proof. exact C14.ProofsInit.ts_failure_not_cached. Qed.
+Theorem ts_mutex : forall n sched i j p q,
+  nth_error (ts_thr (trun n sched)) i = Some p -> nth_error (ts_thr (trun n sched)) j = Some q -> tsec p = true -> tsec q = true -> i = j.
+Proof. exact C14.ProofsInit.ts_mutex. Qed.
+
+(* the package-level variables and the writes to them that srcgen finds in the anchored packages and in every
+   signers/* package are exactly the reviewed ones: a NEW shared mutable global (or a new write site) breaks these *)
+Theorem shared_writes_reviewed : shared_writes = map fst reviewed_writes.
+Proof. exact C14.ProofsInit.shared_writes_reviewed. Qed.
+Theorem shared_vars_reviewed : shared_vars = map fst reviewed_vars.
+Proof. exact C14.ProofsInit.shared_vars_reviewed. Qed.
+Theorem review_is_consistent : review_consistent = true /\ forallb (fun w => guard_named (snd w)) reviewed_writes = true.
+Proof. exact C14.ProofsInit.review_is_consistent. Qed.
+(* objects a request writes into are built per request: the certificate bundle (InitKey loads it afresh, so that
+   Init may store the request's timestamp choice in it), the timestamp request copy, flags, audit record *)
+Theorem per_request_bundle : initkey_calls = [0; 1] /\ ts_wrapper_copies = true /\ init_calls = [0; 1; 2; 3].
+Proof. exact C14.ProofsInit.per_request_bundle. Qed.
+
+Theorem ts_wanted_spec : forall enabled named no_ts, ts_wanted enabled named no_ts = (enabled || named) && negb no_ts.
+Proof. exact C14.ProofsInit.ts_wanted_spec. Qed.
+Theorem closeonce_shape : closeonce_struct_plain = true /\ closeonce_calls = [0; 4; 1; 2; 3].
+Proof. exact C14.ProofsInit.closeonce_shape. Qed.
+
+Example ex_ts_race :   (* three callers, first construction fails, second succeeds, third reuses it *)
+  let st := fun i ok => [TStep i ok; TStep i ok; TStep i ok; TStep i ok] in
+  let s := trun 3 (st 0%nat false ++ [TStep 1 true; TStep 2 true; TStep 1 true; TStep 2 true] ++ st 1%nat true ++ st 2%nat true) in
+  ts_thr s = [TDone None; TDone (Some 1); TDone (Some 1)] /\ ts_made s = [1].
+Proof. vm_compute. auto. Qed.
+End InitProps.
